@@ -5,6 +5,7 @@ import (
 	"encoding/json"
 	"errors"
 	"fmt"
+	"io"
 	"os"
 	"runtime"
 	"strconv"
@@ -76,7 +77,7 @@ var (
 	timeVals  = []time.Time{time.Unix(0, 0).UTC(), time.Unix(1700000000, 0).UTC(), time.Unix(1700000000, 123456789).UTC(), time.Date(2001, 2, 3, 4, 5, 6, 7, time.FixedZone("X", 3600)),
 		{}, time.Date(3000, 1, 1, 0, 0, 0, 0, time.UTC), time.Date(1500, 6, 1, 12, 0, 0, 5, time.UTC)} // the last three lie outside the UnixNano range
 	durVals   = []time.Duration{0, 1, time.Millisecond, 1500 * time.Microsecond, time.Hour, -time.Second}
-	errVals   = []error{errors.New("plain error"), errors.New(""), errors.New("err \"q\"")}
+	errVals   = []error{errors.New("plain error"), errors.New(""), errors.New("err \"q\""), fmt.Errorf("outer: %w", errors.New("inner")), fmt.Errorf("a: %w", fmt.Errorf("b: %w", io.EOF))} // wrapping errors whose Error() returns a stored text (one that builds its text on each call allocates by itself)
 	rawVals   = [][]byte{[]byte(`{}`), []byte(`{"a":1}`), []byte(`[1,2,3]`), []byte(`null`)}
 	typeVals  = []interface{}{nil, 1, "s", 1.5, time.Second, errors.New("x"), []int{1}, map[string]int{}}
 	strsVals  = [][]string{nil, {}, {"a"}, {"a", "b\"c", ""}}
